@@ -61,6 +61,8 @@ fn main() {
                 if let Some(v) = arg_val(&args, "--cut") { w.cut = v.parse().unwrap(); }
                 if let Some(v) = arg_val(&args, "--not") { w.not = v.parse().unwrap(); }
                 if let Some(v) = arg_val(&args, "--print") { w.print = v.parse().unwrap(); }
+                if let Some(v) = arg_val(&args, "--time") { w.time = v.parse().unwrap(); }
+                if has(&args, "--cut-in-not") { w.cut_in_not = true; }
                 if let Some(body) = arg_val(&args, "--replay-case") {
                     match suite_engine::dec_case(&body) { Some(c) => suite_engine::emit(&mut out, &cfg, &c), None => { eprintln!("cannot decode case"); std::process::exit(2); } }
                 }
